@@ -291,7 +291,9 @@ fn class_of(c: &Case, pos: &Spec) -> String {
         Some((_, e)) => (e + 1 + if pos.percent { 2 } else { 0 }).max(0),
         None => 0,
     };
-    let long = !pos.sci && int_digits as usize + pos.decimals > 15;
+    // (from 14 on: with a 16-17 digit number the order of "reduce to 15 digits", "scale by
+    // 100" and "round" decides the last displayed digit, and the statement does not fix it)
+    let long = !pos.sci && int_digits as usize + pos.decimals >= 14;
     if c.tie {
         format!("tie-{kind}")
     } else if long {
@@ -316,7 +318,13 @@ fn run(ctx: &Ctx) -> Stats {
             } else {
                 None
             };
-            let x = gen_value(&mut rng, pos.decimals + if pos.percent { 2 } else { 0 });
+            let mut x = gen_value(&mut rng, pos.decimals + if pos.percent { 2 } else { 0 });
+            if pos.percent {
+                // percent formats scale by 100: with at most 13 significant digits that
+                // scaling is exact in decimal and harmless in binary, so the order of
+                // "reduce to 15 digits" and "scale" cannot matter
+                x = format!("{:.12e}", x).parse().unwrap_or(x);
+            }
             let locale_id = LOCALES[rng.gen_range(0..LOCALES.len())];
             let c = build_case(x, &pos, neg.as_ref(), locale_id);
             if c.skip {
@@ -326,7 +334,7 @@ fn run(ctx: &Ctx) -> Stats {
             st.evaluations += 1;
             let class = class_of(&c, &pos);
             if let Some(detail) = check(&c) {
-                st.violation("format-text", format!("format-text|{class}|"), detail, json!({"x_bits": c.x.to_bits().to_string(), "x": c.x, "code": c.code, "locale": c.locale, "expected": c.expected, "tie": c.tie, "class": class}));
+                ctx.report(st, "format-text", format!("format-text|{class}|"), detail, json!({"x_bits": c.x.to_bits().to_string(), "x": c.x, "code": c.code, "locale": c.locale, "expected": c.expected, "tie": c.tie, "class": class}));
                 if st.violations.len() > 30 {
                     return;
                 }
